@@ -249,13 +249,17 @@ def c_handler_finalize(scenario):
     from litex.soc.integration.soc import SoCBusHandler, SoCIORegion
     from contracts import wblib
     nm, slaves, ic = {"1x1@nonzero": (1, [(0x1000_0000, 0x1000)], "shared"), "1x1@0": (1, [(0x0000_0000, 0x1000)], "shared"), "1x1@0,full": (1, [(0x0000_0000, 0x1_0000_0000)], "shared"),
-                      "2x2,shared": (2, [(0x1000_0000, 0x1000), (0x2000_0000, 0x800)], "shared"), "2x2,crossbar": (2, [(0x1000_0000, 0x1000), (0x2000_0000, 0x800)], "crossbar")}[scenario]
+                      "2x2,shared": (2, [(0x1000_0000, 0x1000), (0x2000_0000, 0x800)], "shared"), "2x2,crossbar": (2, [(0x1000_0000, 0x1000), (0x2000_0000, 0x800)], "crossbar"),
+                      # a slave at origin 0 whose PORT is exactly as wide as its region (4 KiB memory on a 12-bit byte address port) beside another slave:
+                      # the window is decided on the handler's address space, not on the slave port's
+                      "1x2,narrow-port@0": (1, [(0x0000_0000, 0x1000), (0x4000_0000, 0x1000)], "shared"), "2x2,narrow-port@0,crossbar": (2, [(0x0000_0000, 0x1000), (0x4000_0000, 0x1000)], "crossbar")}[scenario]
+    narrow = "narrow-port" in scenario
     TO = 4
     class Top(LiteXModule):
         def __init__(self):
             self.bus = bus = SoCBusHandler(standard="wishbone", data_width=32, address_width=32, timeout=TO, interconnect=ic, interconnect_register=False)
             self.ms = [wishbone.Interface(data_width=32, address_width=32, addressing="word") for _ in range(nm)]
-            self.ss = [wishbone.Interface(data_width=32, address_width=32, addressing="word") for _ in slaves]
+            self.ss = [wishbone.Interface(data_width=32, address_width=(12 if narrow and k_ == 0 else 32), addressing="word") for k_, _ in enumerate(slaves)]
             for i, m in enumerate(self.ms): bus.add_master(f"m{i}", m)
             for i, (s_, (o, sz)) in enumerate(zip(self.ss, slaves)): bus.add_slave(f"s{i}", s_, SoCRegion(origin=o, size=sz))
     d = mk(Top); d.bus.finalize() if not d.bus.finalized else None
@@ -272,7 +276,7 @@ def c_handler_finalize(scenario):
         return z3.And(z3.UGE(zx(adr, 34) << 2, K(o, 34)), z3.ULT(zx(adr, 34) << 2, K(o + p2, 34)))
     for k, (s_, (o, sz)) in enumerate(zip(d.ss, slaves)):
         srq = wblib.req(h, s_)
-        h.ensure(f"ens.route.s{k}", z3.Implies(srq, z3.Or(*[z3.And(wblib.req(h, m), V(m.adr) == V(s_.adr) if True else True, inwin(V(m.adr), o, sz)) for m in d.ms])))   # presented only for addresses of its window, by a requesting master
+        h.ensure(f"ens.route.s{k}", z3.Implies(srq, z3.Or(*[z3.And(wblib.req(h, m), z3.Extract(V(s_.adr).size() - 1, 0, V(m.adr)) == V(s_.adr), inwin(V(m.adr), o, sz)) for m in d.ms])))   # presented only for addresses of its window, by a requesting master
     if nm == 1:
         m = d.ms[0]; unm = z3.And(wblib.req(h, m), *[z3.Not(inwin(V(m.adr), o, sz)) for (o, sz) in slaves])
         h.ensure("ens.unmapped.no-slave", z3.Implies(unm, z3.Not(z3.Or(*[wblib.req(h, s_) for s_ in d.ss]))))
@@ -294,4 +298,4 @@ def c_handler_finalize(scenario):
 
 _cases_c06 = cases
 def cases(tier):
-    return _cases_c06(tier) + [Case(f"SoCBusHandler.finalize({sc})", c_handler_finalize, sc) for sc in ("1x1@nonzero", "1x1@0", "1x1@0,full", "2x2,shared", "2x2,crossbar")]
+    return _cases_c06(tier) + [Case(f"SoCBusHandler.finalize({sc})", c_handler_finalize, sc) for sc in ("1x1@nonzero", "1x1@0", "1x1@0,full", "2x2,shared", "2x2,crossbar", "1x2,narrow-port@0", "2x2,narrow-port@0,crossbar")]
